@@ -486,10 +486,17 @@ func init() {
 			// the sort machinery works only on state of the same evaluation: every write (and every
 			// hand-over of memory to an unreviewed library function, e.g. an object pool) inside the
 			// functions that implement order-by and $sort targets fresh memory
-			sortFns := map[string]bool{"jsonata.evalSort": true, "jsonata.buildSortInfo": true, "jsonata.makeLessFunc": true,
-				"jlib.Sort": true, "jlib.sortNumberArray": true, "jlib.sortStringArray": true, "jlib.sortArrayFunc": true, "jlib.mergeSort": true, "jlib.merge": true}
-			for name := range sortFns {
-				c.mustFn(r, name)
+			// (the machinery: order-by's evaluator and $sort, with everything of the module they call
+			// short of the node dispatcher eval, whatever the helpers are called)
+			sortFam := c.machinery(r, []string{"!jsonata.evalSort", "!jlib.Sort"}, map[string]bool{"jsonata": true, "jlib": true}, []string{"jsonata.eval"})
+			sortFns := map[string]bool{}
+			for f := range sortFam {
+				if shortFn(f) != "jsonata.eval" {
+					sortFns[exceptionKey(f)] = true
+				}
+			}
+			if len(sortFns) < 7 {
+				r.LoseAnchor("C13: the sort machinery has only %d functions (>= 7 expected)", len(sortFns))
 			}
 			runWFiltered(c, c.G, r, "W", evalRootCfg(c), func(s wSite) bool { return sortFns[exceptionKey(s.f)] })
 			r.RequireMin("W write sites examined (root Eval/EvalBytes/String)", r.Counts["W write sites examined (root Eval/EvalBytes/String)"], 15)
